@@ -175,6 +175,14 @@ def run(repo: Repo, rep: Report, tier: str) -> None:
     _sib2.check_own_method_tests(repo, rep, "R14.11")
     from ..core import siblings as _sib3
     _sib3.check_guard_mirror(repo, rep, "R15.10")
+    from ..core.report import Only as _OnlyX
+    from ..core import corpus as _corpusX
+    from ..core import helper_contracts as _hcx
+    from . import c13 as _c13x, c14 as _c14x, c03 as _c03x
+    _hcx.report(repo, rep, "R09.6", _hcx.dataclass_fields_contract(repo), "mashumaro.core.meta.code.builder::CodeBuilder.dataclass_fields")
+    _c13x._slots(repo, _OnlyX(rep, {"R13.3"}), _corpusX.explore_all(repo, tier))
+    _c14x.run(repo, _OnlyX(rep, {"R14.4"}), tier)
+    _c03x.run(repo, _OnlyX(rep, {"R03.1"}), tier)
 
 def _read_before_install(repo: Repo, rep: Report) -> None:
     """R15.9: the codec (non-nailed) branch of pack_dataclass / unpack_dataclass binds the nested class's compiled
@@ -322,3 +330,6 @@ LEVEL_TEXT += _ADD6
 _ADD11 = ' R15.10: the guards of nested compilations in pack.py and unpack.py are mirror images of each other.'
 EXPLANATION += _ADD11
 LEVEL_TEXT += _ADD11
+_ADD22 = ' Borrowed: R09.6, R13.3, R14.4, R03.1.'
+EXPLANATION += _ADD22
+LEVEL_TEXT += _ADD22
